@@ -20,18 +20,25 @@ from checks import brokerlib, inboundlib
 GEN = 'CONSTANTS Clients = {%s} Ids = {%s} Depth = %d\nSPECIFICATION Spec\nCONSTRAINT Dump\nCHECK_DEADLOCK FALSE\n'
 
 
-def script(h, subqos):
+# round 8: the scripts' one topic and the filter that reaches it, in several legal spellings - a level that starts with '$' below the first
+# level reached through '#' and through '+', names outside ASCII, '#' standing for the parent level
+SHAPES = [(["t"], ["t"]), (["home", "lamp", "$state"], ["home", "lamp", "#"]), (["home", "$x", "v"], ["home", "+", "v"]),
+          (["Stra\u00dfe", "\u5317", "Gr\u00f6\u00dfe"], ["Stra\u00dfe", "+", "Gr\u00f6\u00dfe"]), (["t"], ["t", "#"])]
+
+
+def script(h, subqos, shape=0):
+    T, F = SHAPES[shape]
     clients = sorted(subqos)
     cn = {c: i + 1 for i, c in enumerate(clients)}
     ops = []
     for c in clients:
         ops.append({"op": "connect", "c": cn[c], "n": 1, "client": c, "ka": 600, "auto": "norel"})
-        ops.append({"op": "sub", "c": cn[c], "id": 9, "fs": [{"f": ["t"], "q": subqos[c]}]})
+        ops.append({"op": "sub", "c": cn[c], "id": 9, "fs": [{"f": F, "q": subqos[c]}]})
     k = 0
     for o in h:
         if o["op"] == "pub":
             k += 1
-            ops.append({"op": "pub", "c": cn[o["c"]], "t": ["t"], "p": "m%d" % k, "q": o["q"], "id": o["id"] if o["q"] else 0})
+            ops.append({"op": "pub", "c": cn[o["c"]], "t": T, "p": "m%d" % k, "q": o["q"], "id": o["id"] if o["q"] else 0})
         elif o["op"] == "rel":
             ops.append({"op": "send", "c": cn[o["c"]], "kind": "PUBREL", "id": o["id"]})
         elif o["op"] == "sweep":
@@ -117,7 +124,7 @@ def check(run):
     hs = vlib.gen_behaviours(run, "PubSubGen", "Gen_PubSub.cfg", GEN % ('"c1", "c2"', "1, 2", 4 if thorough else 3))
     scns = []
     for i, h in enumerate(hs):
-        scns.append(script(h, {"c1": 1, "c2": 2} if i % 2 == 0 else {"c1": 2, "c2": 1}))
+        scns.append(script(h, {"c1": 1, "c2": 2} if i % 2 == 0 else {"c1": 2, "c2": 1}, shape=[0, 1, 2, 0, 3, 4, 1][i % 7]))
     if not thorough:
         # scripts in which a QoS 2 handshake times out and its PUBREL arrives afterwards are few and always run; the rest is sampled
         def late_rel(h):
